@@ -60,8 +60,10 @@ def _precondition(ctx, vals, N, T, C):
         ctx.assume(any_([all_([l > f for f in first]) for l in later]))
 
 
-def _features(ctx, w, arr, fs, rd):
+def _features(ctx, w, arr, fs, rd, repeat=True):
     df = ctx.call("compute_spike_features", w.compute_spike_features, arr, fs=fs, recovery_duration_ms=rd)
+    if not repeat:
+        return df
     # no state is carried between calls and nothing done to the caller's array changes the answer: the same call again gives the same table
     # (the function may zero NaN samples of its input in place - that is its documented first step and does not change the result)
     df2 = ctx.call("compute_spike_features", w.compute_spike_features, arr, fs=fs, recovery_duration_ms=rd)
@@ -201,9 +203,9 @@ def case_scaling(ctx, T, C, k):
     c = ctx.real("c")
     ctx.assume(and_(c > 0, c < 100))
     fs, rd = 1000.0, float(k)
-    df1 = _features(ctx, w, arr, fs, rd)
+    df1 = _features(ctx, w, arr, fs, rd, repeat=False)        # (non-linear case: the repeated call is exercised by the other cases)
     arr2 = arrays.mk([vals[0][t][cc] * c for t in range(T) for cc in range(C)], shape=(1, T, C), tag=np.dtype(np.float32))
-    df2 = _features(ctx, w, arr2, fs, rd)
+    df2 = _features(ctx, w, arr2, fs, rd, repeat=False)
     for col in INDEX_COLS + ["peak_trace_idx"]:
         ctx.oblige("scaling_keeps_every_index", core.eq(df1[col].to_numpy()[0], df2[col].to_numpy()[0]), detail={"col": col})
     for col in VALUE_COLS:
